@@ -557,9 +557,9 @@ def Policy.sanitizeTokens (p : Policy) (ts : List Token) : Bytes :=
 
 /-- `Policy.SanitizeBytes` / `Sanitize` on non-blank input, and what the reader entry
     points write: the model of the whole pipeline on bytes. -/
-def Policy.sanitizeCore (p : Policy) (input : Bytes) : Bytes := p.sanitizeTokens (tokenize input)
+def Policy.sanitizeCore (p : Policy) (input : Bytes) : Bytes := p.ensureInit.sanitizeTokens (tokenize input)
 
-def Policy.panics (p : Policy) (input : Bytes) : Bool := (p.run {} (tokenize input)).2
+def Policy.panics (p : Policy) (input : Bytes) : Bool := (p.ensureInit.run {} (tokenize input)).2
 
 /-- `Sanitize` / `SanitizeBytes`: blank input is returned unchanged -/
 def Policy.sanitize (p : Policy) (input : Bytes) : Bytes :=
